@@ -41,12 +41,10 @@ def judge(v, o):
         extra = sorted((got - want).elements())
         kinds = sorted({k for k, _, _ in miss} | {k for k, _, _ in extra})
         return "node position differs (%s)" % ",".join(kinds), miss, extra
-    # a string literal may report its quote or its first content byte
+    # the first byte of a string literal is its opening quote
     for (l, c) in sorted(strs):
         if (l, c) in gstrs:
             gstrs.remove((l, c))
-        elif (l, c + 1) in gstrs:
-            gstrs.remove((l, c + 1))
         else:
             return "node position differs (str)", (l, c), sorted(gstrs)
     if gstrs:
@@ -84,6 +82,12 @@ def named_cases():
         for bi, bad in enumerate(BAD):
             out.append({"id": "C20-ne-%s-%d" % (n, bi), "k": "render", "env": "core", "srcs": {n: list(bad.encode())}, "entry": n, "ctx": {},
                         "fam": "named-entry", "nolog": True, "expname": n})
+        # the named template does not exist: the error of the library's own loaders says which one was asked for
+        for kind, tpl in LOADERS.items():
+            for ld in ("memory", "fs"):
+                srcs = {"main": list((tpl % n).encode()), "ok": list(b"O{% block b %}{% endblock %}")}
+                out.append({"id": "C20-nm-%s-%s-%s" % (n, kind, ld), "k": "render", "env": "core", "srcs": srcs, "entry": "main", "ctx": {},
+                            "fam": "named-missing-" + kind, "nolog": True, "expname": n, "loader": ld, "msgonly": True})
     return out
 
 
@@ -137,8 +141,8 @@ def check(run, only=None):
                 "off, else/elseif in and out of place, stray closers) decided by Parser.tla: acceptance and the position of the offending "
                 "tag name; non-trivial = >= 1 LF before the compared "
                 "position, or a truncation/injection")
-    run.assumptions = ["positions are compared for the node kinds the property lists; a string literal may report its quote or its first "
-                       "content byte; for truncations only error presence is compared"]
+    run.assumptions = ["positions are compared for the node kinds the property lists; the anchor of a string literal is its opening quote; "
+                       "for truncations the error must name an anchor (C20_Src) or, in the AST-level family, only be present"]
     if only is not None:
         vecs = only
     else:
@@ -147,9 +151,9 @@ def check(run, only=None):
         # the source reaches the parser through a loader: two thirds of the cases go through the library's own MemoryLoader
         # and FilesystemLoader instead of the harness's recording loader (a loader must hand the bytes over unchanged)
         for n, v in enumerate(vecs):
-            if v.get("k") == "parsepos" or (v.get("k") == "render" and "srcs" in v):
+            if (v.get("k") == "parsepos" or (v.get("k") == "render" and "srcs" in v)) and "loader" not in v:
                 v["loader"] = ("", "memory", "fs")[n % 3]
-    send = [{k: x for k, x in v.items() if k != "exp"} for v in vecs]
+    send = [{k: x for k, x in v.items() if k not in ("exp", "msgonly")} for v in vecs]
     obs, hooks = common.run_pool(send, deadline_ms=4000)
     run.hooks = hooks
     for v in vecs:
@@ -162,7 +166,7 @@ def check(run, only=None):
             err = o["obs"].get("err") or {}
             if o["obs"]["status"] != "err":
                 run.mismatch("C20 %s error not reported" % v["fam"], v, "a template with a syntax error was accepted", observed=o["obs"])
-            elif err.get("name") != v["expname"] or v["expname"] not in (err.get("msg") or ""):
+            elif (not v.get("msgonly") and err.get("name") != v["expname"]) or v["expname"] not in (err.get("msg") or ""):
                 run.mismatch("C20 %s error does not name the template" % v["fam"], v,
                              "the error raised while loading '%s' does not identify it" % v["expname"],
                              expected=v["expname"], observed={"name": err.get("name"), "msg": err.get("msg")})
